@@ -55,9 +55,17 @@ T = 3600  # generous timeouts: the machine is shared (AGENT_BRIEF load notice)
 
 
 def _cov(ctx, res):
-    z = res.get('zero_actions') or []
-    if z:
-        raise vlib.Broken('vacuous model-checking run, actions never taken: %s' % z[:5])
+    """-coverage 1 prints interim reports too: only the last figure of every action counts."""
+    import re
+    last = {}
+    for m in re.finditer(r'^<(\w+) line [^>]*>: (\d+):(\d+)\s*$', res.get('out') or '', re.M):
+        last[m.group(1)] = (int(m.group(2)), int(m.group(3)))
+    if not last:
+        raise vlib.Broken('no coverage figures in the TLC output')
+    zero = sorted(a for a, (d, g) in last.items() if g == 0)
+    if zero:
+        raise vlib.Broken('vacuous model-checking run, actions never taken: %s' % zero)
+    ctx.extra['mc_action_coverage'] = {a: '%d:%d' % v for a, v in sorted(last.items())}
 
 
 # ---------------------------------------------------------------------------------------------------- C06
